@@ -572,16 +572,25 @@ Proof.
     + destruct (opt_get "length" opts) as [[n|s]|] eqn:Hl.
       * destruct (le_lt_dec (take_len n) (List.length (remaining (st_stream st1)))) as [Hle|Hlt].
         -- left. unfold iter_step. rewrite Hh, HF. cbv beta zeta. rewrite Hcont, Hl.
-           rewrite !(read_content_lift d2 st1 n) by assumption.
-           repeat match goal with
-                  | |- context [read_content ?a ?b ?c ?d ?e ?f] =>
-                      destruct (read_content a b c d e f); cbn [lift_content]
-                  | |- context [match ?x with _ => _ end] =>
-                      match x with
-                      | context [match _ with _ => _ end] => fail 1
-                      | _ => destruct x eqn:?
-                      end
-                  end; reflexivity.
+           destruct (top encs) as [inh|]; [|reflexivity].
+           destruct (n <? 0)%Z; [reflexivity|].
+           destruct (is_preamble id).
+           { rewrite read_content_lift by assumption.
+             match goal with |- context [read_content ?a ?b ?c ?d ?e ?f] => destruct (read_content a b c d e f) end;
+               cbn [lift_content]; try reflexivity.
+             destruct (table_get id); reflexivity. }
+           destruct (is_meta id).
+           { destruct (negb _); [reflexivity|].
+             rewrite read_content_lift by assumption.
+             match goal with |- context [read_content ?a ?b ?c ?d ?e ?f] => destruct (read_content a b c d e f) end;
+               cbn [lift_content]; try reflexivity.
+             destruct (assoc_get beq _ orc) as [[j| |]|]; try reflexivity.
+             destruct (table_get id); reflexivity. }
+           destruct (beq id GenSections.sec_file_diff); [|reflexivity].
+           rewrite read_content_lift by assumption.
+           match goal with |- context [read_content ?a ?b ?c ?d ?e ?f] => destruct (read_content a b c d e f) end;
+             cbn [lift_content]; try reflexivity.
+           destruct (table_get id); reflexivity.
         -- right; right. exists level, name, id, opts, line, st1, n. auto 10.
       * left. unfold iter_step. rewrite Hh, HF. cbv beta zeta. rewrite Hcont, Hl.
         destruct (top encs); reflexivity.
